@@ -146,7 +146,7 @@ func (x *Exec) intrinsic(st *State, c *ssa.Call, name string, fn *ssa.Function, 
 		// remember the message for Error()
 		s := args[0].(VString)
 		for i, l := range e.leaves(types.Typ[types.String]) {
-			nm := "ErrMsg_" + l.Name
+			nm := "Gh_errtext_" + l.Name
 			st.heapSet(nm, Store(st.heapGet(nm, e.fldSort(l.S)), ref, e.toLeaves(types.Typ[types.String], s)[i]))
 		}
 		k(st, VIface{Tag: e.ar.IConst(int64(t)), Ref: ref})
